@@ -184,6 +184,65 @@ def _found_ok(sem, form, nports):
     return len(f.port_pressure) == nports
 
 
+def _report_ok(m, arch, sem, form, nports):
+    """The CLI path for a kernel that consists of one instruction matching this form: text report and
+    machine-readable report are produced (no exception), with one kernel line and one totals line."""
+    from osaca.frontend import Frontend
+    from vp.synth import iform, DG, NativeParser, PX, PA
+    f = iform(1, mnemonic=form.mnemonic, line=str(form.mnemonic).lower())
+    flags = []
+    tp, pp, lat, lat_wo = sem._handle_instruction_found(form, nports, f, flags)
+    f.throughput, f.latency, f.latency_wo_load, f.flags = tp, lat, lat_wo, flags
+    f._comment_id = None
+    isa = (m._data.get("isa") or "x86").lower()
+    g = DG([f], NativeParser(PX if isa == "x86" else PA), lcd=True)
+    fe = Frontend.__new__(Frontend)
+    fe._filename, fe._arch, fe._machine_model = "k.s", arch, m
+    text = fe.full_analysis([f], g, ignore_unknown=False)
+    d = fe.full_analysis_dict([f], g)
+    return "Combined Analysis Report" in text and len(d["Kernel"]) == 1 and len(d["Summary"]["PortPressure"]) == nports
+
+
+def _instance_of(isa, pat):
+    """an instruction's memory operand with the addressing shape a table row declares"""
+    from osaca.parser.immediate import ImmediateOperand
+    from osaca.parser.memory import MemoryOperand
+    from osaca.parser.register import RegisterOperand
+
+    def r(spec, n):
+        if spec is None:
+            return None
+        if isa == "x86":
+            return RegisterOperand(name=["rax", "rcx"][n])
+        return RegisterOperand(prefix=("x" if spec == "*" else str(spec)), name=["1", "2"][n])
+    off = None if pat.offset is None else ImmediateOperand(value=8)
+    idx = r(pat.index, 1)
+    scale = pat.scale if isinstance(pat.scale, int) else (4 if idx is not None else 1)
+    mem = MemoryOperand(base=r(pat.base, 0), offset=off, index=idx, scale=scale)
+    if isa != "x86":
+        mem.pre_indexed = True if pat.pre_indexed is True else False
+        mem.post_indexed = {"value": 8} if pat.post_indexed is True else False
+    return mem
+
+
+REG_TYPES = {"x86": ["gpr", "xmm", "ymm", "zmm"], "aarch64": ["w", "x", "b", "h", "s", "d", "q", "v", "z"]}
+
+
+def _lookup_ok(m, key, pat, ports):
+    """What assign_tp_lt does with the load / store tables for a memory-composed instruction: the
+    look-up for an operand of the row's own addressing shape and every data-register type yields
+    at least one row (the default if none applies) whose first micro-op list can be costed."""
+    from osaca.parser.register import RegisterOperand
+    isa = (m._data.get("isa") or "x86").lower()
+    mem = _instance_of(isa, pat)
+    for t in REG_TYPES[isa]:
+        res = m.get_load_throughput(mem) if key == "load_throughput" else m.get_store_throughput(mem, RegisterOperand(name=t))
+        if not res or wf_problems(res[0][1], ports):
+            return False
+        m.average_port_pressure(res[0][1])
+    return True
+
+
 def make_model_cell(arch, balance_all=False):
     def run(budget):
         import z3
@@ -219,8 +278,22 @@ def make_model_cell(arch, balance_all=False):
                         cost_failures.append(i)
                     if kind == "form" and ports and not _found_ok(sem, obj, len(ports)):
                         cost_failures.append(i)
+                    # report path: every form with a special shape (no / zero throughput, no latency, no micro-ops)
+                    # and every 16th of the others (thorough tier: every form)
+                    special = kind == "form" and (not obj.throughput or obj.latency is None or not pp)
+                    if kind == "form" and ports and (balance_all or special or i % 16 == 0) and not _report_ok(m, arch, sem, obj, len(ports)):
+                        cost_failures.append(i)
                 except Exception:   # noqa
                     cost_failures.append(i)
+        # table look-ups: one addressing instance per declared row x every data-register type
+        if ports:
+            for i, (name, k, kind, obj) in enumerate(ents):
+                if kind == "row" and name in ("load_throughput", "store_throughput") and not problems_of(kind, obj, ports):
+                    try:
+                        if not _lookup_ok(m, name, m._data[name][k][0], ports):
+                            cost_failures.append(i)
+                    except Exception:   # noqa
+                        cost_failures.append(i)
         for i in cost_failures:
             st = kf_state({"arch": arch, "name": ents[i][0], "problems": ()})
             if st == "full":
@@ -254,7 +327,12 @@ def replay_entry(arch, name, k):
                 m.average_port_pressure(pp)
                 if kind == "form":
                     try:
-                        return _balance_ok(_sem_for(m), m, obj, ports) and _found_ok(_sem_for(m), obj, len(ports))
+                        return _balance_ok(_sem_for(m), m, obj, ports) and _found_ok(_sem_for(m), obj, len(ports)) and _report_ok(m, arch, _sem_for(m), obj, len(ports))
+                    except Exception:   # noqa
+                        return False
+                if kind == "row" and name in ("load_throughput", "store_throughput"):
+                    try:
+                        return _lookup_ok(m, name, m._data[name][k][0], ports)
                     except Exception:   # noqa
                         return False
             return True
